@@ -33,8 +33,6 @@ def judge(ctx, items, res, driver, case):
         return
     it = culprit(items, c)
     cls = 'refused' if c.status == 'refused' else 'raw:' + c.etype
-    if c.status == 'refused':
-        cls += ':' + progs.refusal_class(c).replace(' ', '-')
     consts = {i['name'] for i in items if i['k'] == 'const' and 'name' in i}
     if it is not None and consts & set(L.refs(it)):
         cls += ':const-target'          # the operand names a CONSTANT (an absolute address / value), not a label
